@@ -889,7 +889,11 @@ type specJob struct {
 func runC09(c *vh.Ctx) {
 	c.Rule("a case is (format, arguments, byte/character mode). Enumerated: flag subsets x widths x precisions (literal and *) x the 13 verbs x " +
 		"argument classes (integers across int64, fractions, non-finite, tiny/huge, numeric/non-numeric/empty/multi-byte strings, input fields); " +
-		"random: 1-4 items per format (text, %%, specifications, malformed pieces), too few / extra arguments. Non-trivial = the specification has " +
+		"random: 1-4 items per format (text, %%, specifications, malformed pieces), too few / extra arguments; character mode: %c / %s with '-', width and precision " +
+		"(literal and *) over strings assembled from well-formed 1-4 byte sequences, stray continuation bytes, lone lead bytes, truncated sequences, overlong forms, " +
+		"surrogates, bytes above 0xF4 and Latin-1 text at the start / middle / end, and code points around every encoding-length boundary; number-to-string: " +
+		"2^k (k = 7 … 128) and 10^k with ±1, ±1 ulp, ±0.5 and x1.5 neighbours and negatives, each through several spellings (17-digit and exact decimal literal, 2^k ± d, " +
+		"products/quotients of 2^32, field + 0, variable + 0, numeric-prefix string + 0) x OFMT/CONVFMT x default/csv/tsv output at 7 conversion sites. Non-trivial = the specification has " +
 		"at least one flag, width or precision, or the argument needs a conversion (string to number, number to string, fraction truncated, non-finite)")
 
 	var specs []specJob
@@ -1040,6 +1044,11 @@ func runC09(c *vh.Ctx) {
 		splits[wi] = sp
 	}
 
+	// -- character mode: %c / %s over well-formed and ill-formed UTF-8, code points around the encoding-length boundaries
+	for _, g := range c09CharModeSpecs(c) {
+		addSpec(g.chars, g.it, g.args, "charmode")
+	}
+
 	if c.ReplayFile != "" {
 		specs, whole, splits = nil, nil, map[int]split{}
 		var rp struct {
@@ -1141,6 +1150,9 @@ func runC09(c *vh.Ctx) {
 		}
 	}
 
+	// -- oracle 1b: character mode, %c / %s against the independent statement of "character"
+	c09CharModeOracle(c, specs, specOut, libc)
+
 	// -- oracle 2: a whole format is the concatenation of its items; errors for unknown verbs / missing arguments
 	for wi, cs := range whole {
 		o := wholeOut[wi]
@@ -1183,6 +1195,7 @@ func runC09(c *vh.Ctx) {
 	c09ErrorOracle(c)
 	c09PrintOracle(c)
 	c09PrintPaths(c)
+	c09Boundary(c)
 	c09Repeat(c)
 
 	// -- correspondence with the Lean model
@@ -1335,6 +1348,7 @@ func c09PrintOracle(c *vh.Ctx) {
 	})
 	var creqs []string
 	var cidx []int
+	alt := map[int]string{} // a second accepted text (integral values beyond int64)
 	for i, j := range jobs {
 		cs := map[string]interface{}{"print": true, "ofmt": j.ofmt, "bits": fmt.Sprintf("%016x", math.Float64bits(j.f)), "value": awkNumExpr(j.f)}
 		c.Eval(fmt.Sprint("print", j.ofmt, math.Float64bits(j.f)), j.f != math.Trunc(j.f) || j.ofmt != "%.6g")
@@ -1359,8 +1373,9 @@ func c09PrintOracle(c *vh.Ctx) {
 			continue
 		}
 		if !math.IsNaN(j.f) && !math.IsInf(j.f, 0) && math.Abs(j.f) >= 9223372036854775808.0 && j.f == math.Trunc(j.f) {
-			c.Hit("print-skip:integral beyond int64 (property does not fix the form)")
-			continue
+			// the property does not fix the form: the exact integer or C printf of OFMT, nothing else (see boundary.go)
+			c.Hit("print-oracle:integral beyond int64 (integer or OFMT)")
+			alt[i], _ = exactDecimal(j.f)
 		}
 		creqs = append(creqs, fmt.Sprintf("%s f 0 0 0 %016x", vh.HxS(j.ofmt), math.Float64bits(j.f)))
 		cidx = append(cidx, i)
@@ -1371,14 +1386,20 @@ func c09PrintOracle(c *vh.Ctx) {
 	for k, a := range ans {
 		j := jobs[cidx[k]]
 		cs := map[string]interface{}{"print": true, "ofmt": j.ofmt, "bits": fmt.Sprintf("%016x", math.Float64bits(j.f)), "value": awkNumExpr(j.f)}
+		if a == "ERR" {
+			c.Hit("print-skip:libc buffer")
+			continue
+		}
 		c.OracleCase()
 		want := string(vh.Unhx(a))
-		if j.out.Out != want {
-			fnd := ""
-			if (math.IsNaN(j.f) || math.IsInf(j.f, 0)) && j.ofmt != "%.6g" {
-				fnd = "" // value.str spells non-finite numbers itself; a mismatch here is new
+		if x, ok := alt[cidx[k]]; ok {
+			if j.out.Out != x && j.out.Out != want {
+				c.Fail(vh.Failure{Kind: "oracle", What: "print of an integral number beyond int64 is neither the integer nor C printf of OFMT", Case: cs, Got: strconv.Quote(j.out.Out), Want: strconv.Quote(x) + " or " + strconv.Quote(want)})
 			}
-			c.Fail(vh.Failure{Kind: "oracle", What: "print of a non-integral number is not C printf of OFMT", Finding: fnd, Case: cs, Got: strconv.Quote(j.out.Out), Want: strconv.Quote(want)})
+			continue
+		}
+		if j.out.Out != want {
+			c.Fail(vh.Failure{Kind: "oracle", What: "print of a non-integral number is not C printf of OFMT", Case: cs, Got: strconv.Quote(j.out.Out), Want: strconv.Quote(want)})
 		}
 	}
 	if c.HasLean() {
